@@ -7,6 +7,33 @@ TB = ("Trusted: Lean 4.33 kernel; axioms propext/Classical.choice/Quot.sound onl
       "Mathlib lemmas; translators gen/*.py; the correspondence harness and the Lean driver's JSON I/O. The Lean model is hand-written "
       "(except generated parts) and tied to /repo by the correspondence run; nothing in the Python is verified directly. ")
 CHECKS = {
+ "C01": dict(
+   cat="proof",
+   text="Lean block-sparse tensor model (M3-M5): every operation is defined on blocks as index functions; theorems state that toDense commutes with the "
+        "algebra (see evidence.theorems for what is proved on this run; ncon/einsum/diag/broadcast/mask are covered by correspondence + NumPy oracles only). "
+        "Tie: random type-directed programs executed on the real code; after EVERY step the real observables (signature, charge, block keys/shapes/values via "
+        "public block access) are compared exactly (integer data) with the compiled Lean model and with NumPy on dense operands; block access/to_numpy/"
+        "to_nonsymmetric/get_legs/`in` consistency oracle.",
+   note=TB + "Modelled not verified: flat _data/slices re-indexing, NumPy kernels, lazy `trans` (the model is the logical view). Which all-zero blocks a contraction "
+        "creates depends on tensordot_policy and is not compared (model is re-synchronised).",
+   technique="Lean 4 proof on a block-tensor model + differential program correspondence + NumPy oracle", design="§5 C01"),
+ "C05": dict(
+   cat="proof",
+   text="29 Lean theorems: swap sign formula, involution, bosonic identity, bosonic components ignored, pair symmetry; sign_canonical_order == inversion parity for "
+        "EVERY list of (site, charge) and every total preorder; jump-move identity; every ncon command preserves edge parities; swap_gate commands contribute the "
+        "specified sign. The ncon planner (iterates over a Python set) is not modelled: its emitted command list is JUDGED by the proved command semantics over ALL "
+        "conserved parity labellings of each generated network (translation validation per network: ncon_order_independent_partial). Tie: exact block-sign "
+        "correspondence, value of real ncon/einsum for every contraction order vs dense reference, fkron vs NumPy Jordan-Wigner matrices and CAR.",
+   note=TB + "Planner invariance is validated per network, not proved for all networks. Two genuine planner defects are recorded as known findings.",
+   technique="Lean 4 proof (sign algebra) + translation validation of planner output + dense oracles", design="§5 C05"),
+ "C13": dict(
+   cat="proof",
+   text="34 Lean theorems about an exact model of truncation_mask (two-stage block/global selection, strict >, per-sector dictionaries): limits respected, "
+        "maximality, uniqueness up to ties (kept multisets equal), non-binding limits keep everything, partition of the norm, and (Mathlib) the truncated-factorisation "
+        "error identity under isometry contracts. Tie: dyadic-rational spectra run through the real truncation_mask in several symmetries; tie-free masks compared "
+        "bit for bit, tie-heavy ones JUDGED by the proved `Valid` predicate; svd/eigh_with_truncation error identity and limits checked on the real code.",
+   note=TB + "LAPACK SVD/eigh are contracts validated numerically per run; truncate_multiplets heuristic is outside the property and not modelled.",
+   technique="Lean 4 proof over exact truncation model + differential/judged correspondence", design="§5 C13"),
  "C19": dict(
    cat="proof",
    text="Group laws (associativity, commutativity, identity, inverse by signature flip, canonical range, grouping law) are Lean theorems "
@@ -15,6 +42,14 @@ CHECKS = {
         "fuse/add_charges/Leg vs the model + axioms evaluated on the real code over the box.",
    note=TB + "Modelled, not verified: numpy matmul/mod semantics of the one-line rules (Euclidean mod for positive moduli), Leg constructor restricted to integer arguments.",
    technique="Lean 4 proof over translator-generated model + box correspondence", design="§5 C19"),
+ "C20": dict(
+   cat="proof",
+   text="43 Lean theorems for ALL Nx,Ny>=1 and all boundary types: nn_site inverse, site2index period iff, f-order total order and sites sorted, sites/bonds listed "
+        "once with counts, bonds nearest-neighbour in lattice order and f-ordered iff not crossing the cylinder seam, checkerboard/rectangular/triangular index laws, "
+        "pattern validation iff, Lattice container get/set/patch laws. Tie: exhaustive correspondence of the real lattice classes vs the compiled model on all small "
+        "lattices/patterns, windows of sites, 8 directions and shifts, container scripts; invariants evaluated on the real classes.",
+   note=TB + "rect_one_neighbourhood over all of Z^2 and rect_sites_once are partial (checked by oracle on the real class).",
+   technique="Lean 4 proof + exhaustive small-domain correspondence", design="§5 C20"),
 }
 NA_REASON = "check not built yet in this session (in progress; see DESIGN.md §9 build order)"
 ALL = [f"C{i:02d}" for i in range(1, 21)]
